@@ -94,7 +94,57 @@ func extractEnv(p *pkgs, f *facts) {
 	for _, s := range stripped {
 		lits = append(lits, leanBytesOfString(s))
 	}
-	f.lean = append(f.lean, fmt.Sprintf("def env : Env.Params := ⟨%s, [%s], %s⟩", leanBool(guarded), strings.Join(lits, ", "), leanBool(perElement)))
+	// configuredLast: every assignment to cmd.Env in Start EXTENDS it (`cmd.Env = append(cmd.Env, …)`: the caller's entries
+	// stay in front), and the extension by the host environment (`hostEnviron()...`) precedes all the others in the source
+	// stdinFromStart: `cmd.Stdin = os.Stdin` is a statement of Start's own body (unconditional) and the only assignment to it
+	configuredLast, stdinFromStart := false, false
+	if start != nil {
+		var hostPos token.Pos = token.NoPos
+		var others []token.Pos
+		pure := true
+		nStdin, topStdin := 0, 0
+		ast.Inspect(start.Body, func(n ast.Node) bool {
+			as, ok := n.(*ast.AssignStmt)
+			if !ok {
+				return true
+			}
+			for i, l := range as.Lhs {
+				switch exprString(l) {
+				case "cmd.Env":
+					if i >= len(as.Rhs) {
+						pure = false
+						continue
+					}
+					ce, ok := as.Rhs[i].(*ast.CallExpr)
+					if !ok || exprString(ce.Fun) != "append" || len(ce.Args) < 2 || exprString(ce.Args[0]) != "cmd.Env" {
+						pure = false
+						continue
+					}
+					if strings.HasPrefix(exprString(ce.Args[1]), "hostEnviron(") {
+						hostPos = as.Pos()
+					} else {
+						others = append(others, as.Pos())
+					}
+				case "cmd.Stdin":
+					nStdin++
+				}
+			}
+			return true
+		})
+		for _, st := range start.Body.List {
+			if as, ok := st.(*ast.AssignStmt); ok && len(as.Lhs) == 1 && len(as.Rhs) == 1 && exprString(as.Lhs[0]) == "cmd.Stdin" && exprString(as.Rhs[0]) == "os.Stdin" {
+				topStdin++
+			}
+		}
+		configuredLast = pure && len(others) >= 1
+		for _, o := range others {
+			if hostPos != token.NoPos && o < hostPos {
+				configuredLast = false
+			}
+		}
+		stdinFromStart = nStdin == 1 && topStdin == 1
+	}
+	f.lean = append(f.lean, fmt.Sprintf("def env : Env.Params := ⟨%s, [%s], %s, %s, %s⟩", leanBool(guarded), strings.Join(lits, ", "), leanBool(perElement), leanBool(configuredLast), leanBool(stdinFromStart)))
 	has := map[string]bool{}
 	for _, s := range stripped {
 		has[s] = true
@@ -105,7 +155,7 @@ func extractEnv(p *pkgs, f *facts) {
 	}
 	f.set("env", map[string]interface{}{"hostGuardedBySkip": guarded, "stripped": stripped,
 		"hostEnvShape": filterShape, "stripsInheritedControls": stripsAll,
-		"filterPerElement": perElement, "filterLoop": loopNote})
+		"filterPerElement": perElement, "filterLoop": loopNote, "configuredLast": configuredLast, "stdinFromStart": stdinFromStart})
 }
 
 // envLoop is one loop statement of the filter code together with the scope it
